@@ -19,15 +19,18 @@ RULE = ('enumerated part: tables = (shape r x c with 1 <= r, c <= 3, column type
         'table is built in EVERY block layout and every layout receives the whole battery: fillna_forward/backward x limit 0..3 x '
         'axis 0,1; fillna_leading/trailing x axis 0,1 x 2 fill values; isna; notna; dropna x axis x all/any; count x axis x skipna; '
         'fillna(element); plus every missing pattern of Series of length 1..6 (float/object/M8[D]) x limit 0..n. Sampled part: '
-        'seeded Frames up to 6x6 (13 dtypes, 7 index kinds, Frame/FrameGO, random layout) and Series up to 9 with 5 operations each '
-        'incl. fillna(Frame/Series) with partially covering, reordered labels. One evaluation = (table, layout, operation with its '
+        'seeded Frames up to 6x6 (13 dtypes incl. float32/complex128/M8[s]/m8[D], 7 row and 5 column index kinds incl. hierarchies, '
+        'Frame/FrameGO, random layout, a few zero-row / zero-column frames) and Series up to 9 with 5 operations each incl. '
+        'fillna(Frame/Series) with partially covering, reordered labels, limits up to n+1 and 16 fill values. One evaluation = (table, layout, operation with its '
         'arguments); non-trivial = the table holds at least one missing cell; distinct = hash of (table, layout, operation family '
         'in directional/sided/mark/drop/fill/count) — the limit / axis / value variants of a family count once')
 EXPLANATION = ('thorough: the enumerated part is complete for every shape <= 3x3; quick: complete for the shapes 1x1, 1x2, 2x1, 2x2, 1x3, '
                '3x1, 3x2 (every row pattern x layout x limit of a 3-column row is in 1x3) plus a seeded 1/8 sample of the 2x3 and 1/40 of '
                'the 3x3 tables; Series part complete in both tiers. Completeness '
                'is over (shape, column-type word, missing pattern, block layout, operation battery) with one fixed non-missing value '
-               'per cell and the None/NaN object marker fixed by cell parity; breakdown.exh_tables counts the tables per shape')
+               'per cell and the None/NaN object marker fixed by cell parity; breakdown.exh_shape_complete counts the tables of the completely '
+               'enumerated shapes (9, 81, 729, 15, 225, 3375, 27, 729, 19683 for 1x1..3x3); a run whose enumeration is cut short by the '
+               'budget reports a harness error and is inconclusive')
 EXHAUSTIVE = {'quick': True, 'thorough': True}
 ASSUMPTIONS = ['reference model: per-column / per-row Python lists (sfmon/model/c14_refna.py); limit counts consecutive missing cells since the last non-missing one, 0 = unlimited',
                'filled cells compared at value strength (NumPy promotion of the filled column is allowed; datetime64 may be presented as the equal datetime object after object widening); '
